@@ -1,5 +1,292 @@
 package main
 
-func thorough(c *Check, p *Prog, r *Report, repo, verif string) {}
+// Thorough tier (DESIGN.md §1.7): everything the quick tier does, plus
+//  1. the same rules under the build-configuration matrix GOOS × build tags (a static
+//     tool sees only what was parsed: a *_windows.go file is invisible to quick);
+//  2. checker self-validation: every confirmed seeded mutant of this property
+//     (/verif/seeded/<prop>-*/patch.diff) is applied to a scratch copy of /repo's
+//     CURRENT working tree and must be reported; every behaviour-preserving variant
+//     (/verif/checker/selftest/benign/*.diff) must stay silent;
+//  3. cross-reference linters (information only).
+// Self-validation results are evidence; they never change the verdict about /repo.
 
-func cmdSelftest(args []string) int { return 0 }
+import (
+	"bytes"
+	"fmt"
+	"go/types"
+	"os"
+	"os/exec"
+	"path/filepath"
+	"sort"
+	"strings"
+	"sync"
+	"time"
+)
+
+type matrixCfg struct{ goos, tags string }
+
+var matrix = []matrixCfg{{"linux", "goverter"}, {"windows", ""}, {"windows", "goverter"}, {"darwin", ""}, {"darwin", "goverter"}}
+
+func thorough(c *Check, p *Prog, r *Report, repo, verif string) {
+	// ---- 1. configuration matrix
+	quickKeys := map[string]bool{}
+	for _, o := range r.Obls {
+		if o.Verdict == "violation" {
+			quickKeys[o.Key] = true
+		}
+	}
+	var mu sync.Mutex
+	var wg sync.WaitGroup
+	type res struct {
+		cfg   matrixCfg
+		obls  []*Obligation
+		fatal []string
+		funcs int
+		err   error
+	}
+	results := make([]res, len(matrix))
+	sem := make(chan struct{}, 3)
+	for i, m := range matrix {
+		wg.Add(1)
+		go func(i int, m matrixCfg) {
+			defer wg.Done()
+			sem <- struct{}{}
+			defer func() { <-sem }()
+			pp, err := Load(LoadOpts{Dir: repo, GOOS: m.goos, Tags: m.tags})
+			if err != nil {
+				results[i] = res{cfg: m, err: err}
+				return
+			}
+			sub := newReport(c.ID, "thorough")
+			mu.Lock() // rule code keeps a few package-level memo tables: run rule evaluation serially
+			resetMemos()
+			safeRun(c, pp, sub)
+			mu.Unlock()
+			results[i] = res{cfg: m, obls: sub.Obls, fatal: sub.Fatal, funcs: len(pp.Funcs)}
+		}(i, m)
+	}
+	wg.Wait()
+	resetMemos()
+	var matrixInfo []string
+	for _, rs := range results {
+		name := fmt.Sprintf("GOOS=%s tags=%q", rs.cfg.goos, rs.cfg.tags)
+		if rs.err != nil {
+			r.Fatal = append(r.Fatal, "matrix "+name+": "+firstLine(rs.err.Error()))
+			continue
+		}
+		nv := 0
+		for _, o := range rs.obls {
+			if o.Verdict == "violation" && !quickKeys[o.Key] {
+				// a violation that only exists under this configuration
+				nv++
+				o.Site = o.Site + " [" + name + "]"
+				o.Key = o.Key + " [" + name + "]"
+				r.Obls = append(r.Obls, o)
+				if st := r.Rules[o.Rule]; st != nil {
+					st.Instances++
+				}
+			}
+		}
+		for _, f := range rs.fatal {
+			r.Fatal = append(r.Fatal, "matrix "+name+": "+f)
+		}
+		matrixInfo = append(matrixInfo, fmt.Sprintf("%s: %d own functions, %d obligations, %d additional violations", name, rs.funcs, len(rs.obls), nv))
+	}
+	r.Info = append(r.Info, matrixInfo...)
+	r.Analysed["matrix_configurations"] = len(matrix) + 1
+
+	// ---- 2. self-validation
+	st := selfValidate(c.ID, repo, verif)
+	r.Info = append(r.Info, st...)
+
+	// ---- 3. cross reference (information only)
+	if c.ID == "C13" || c.ID == "C03" {
+		r.Info = append(r.Info, crossReference(repo)...)
+	}
+}
+
+// resetMemos clears the per-program memo tables used by rule code.
+func resetMemos() {
+	effectFreeMemo = map[*types.Func]int{}
+	commutativeMemo = map[*types.Func]int{}
+	fieldSourcesMemo = nil
+	siteCounter = map[string]int{}
+}
+
+// scratchCopy copies the working tree of repo (without .git and the scenario scratch dir) to a temp dir.
+func scratchCopy(repo string) (string, error) {
+	dir, err := os.MkdirTemp("", "gvlint-selftest-")
+	if err != nil {
+		return "", err
+	}
+	cmd := exec.Command("rsync", "-a", "--exclude", ".git", "--exclude", "execution", repo+"/", dir+"/")
+	if out, err := cmd.CombinedOutput(); err != nil {
+		os.RemoveAll(dir)
+		return "", fmt.Errorf("rsync: %v: %s", err, out)
+	}
+	return dir, nil
+}
+
+func applyPatch(dir, patch string) error {
+	cmd := exec.Command("git", "apply", "--whitespace=nowarn", patch)
+	cmd.Dir = dir
+	cmd.Env = append(os.Environ(), "GIT_CEILING_DIRECTORIES="+filepath.Dir(dir))
+	out, err := cmd.CombinedOutput()
+	if err != nil {
+		return fmt.Errorf("%v: %s", err, firstLine(string(out)))
+	}
+	return nil
+}
+
+func runSelf(prop, repo string) (int, string) {
+	tmpVerif, _ := os.MkdirTemp("", "gvlint-verif-")
+	defer os.RemoveAll(tmpVerif)
+	cmd := exec.Command(os.Args[0], "check", "-property", prop, "-tier", "quick", "-repo", repo, "-verif", tmpVerif)
+	var buf bytes.Buffer
+	cmd.Stdout = &buf
+	cmd.Stderr = &buf
+	err := cmd.Run()
+	code := 0
+	if ee, ok := err.(*exec.ExitError); ok {
+		code = ee.ExitCode()
+	} else if err != nil {
+		code = 99
+	}
+	return code, buf.String()
+}
+
+func selfValidate(prop, repo, verif string) []string {
+	var info []string
+	start := time.Now()
+	muts, _ := filepath.Glob(filepath.Join(verif, "seeded", prop+"-*", "patch.diff"))
+	benign, _ := filepath.Glob(filepath.Join(verif, "checker", "selftest", "benign", "*.diff"))
+	sort.Strings(muts)
+	sort.Strings(benign)
+	type job struct {
+		patch  string
+		mutant bool
+	}
+	var jobs []job
+	for _, m := range muts {
+		jobs = append(jobs, job{m, true})
+	}
+	for _, b := range benign {
+		jobs = append(jobs, job{b, false})
+	}
+	type out struct {
+		job
+		skipped string
+		code    int
+		text    string
+	}
+	outs := make([]out, len(jobs))
+	sem := make(chan struct{}, 6)
+	var wg sync.WaitGroup
+	for i, j := range jobs {
+		wg.Add(1)
+		go func(i int, j job) {
+			defer wg.Done()
+			sem <- struct{}{}
+			defer func() { <-sem }()
+			dir, err := scratchCopy(repo)
+			if err != nil {
+				outs[i] = out{job: j, skipped: err.Error()}
+				return
+			}
+			defer os.RemoveAll(dir)
+			if err := applyPatch(dir, j.patch); err != nil {
+				outs[i] = out{job: j, skipped: "does not apply to the current tree: " + err.Error()}
+				return
+			}
+			code, text := runSelf(prop, dir)
+			outs[i] = out{job: j, code: code, text: text}
+		}(i, j)
+	}
+	wg.Wait()
+	nm, dm, nb, sb, skipped := 0, 0, 0, 0, 0
+	for _, o := range outs {
+		name := filepath.Base(filepath.Dir(o.patch))
+		if !o.mutant {
+			name = filepath.Base(o.patch)
+		}
+		switch {
+		case o.skipped != "":
+			skipped++
+			info = append(info, "selftest skipped "+name+": "+o.skipped)
+		case o.mutant:
+			nm++
+			if o.code == 1 {
+				dm++
+			} else {
+				msg := fmt.Sprintf("SELFTEST-MISS property=%s seeded mutant %s is not reported (exit %d)", prop, name, o.code)
+				fmt.Println(msg)
+				info = append(info, msg)
+			}
+		default:
+			nb++
+			if o.code == 0 {
+				sb++
+			} else {
+				first := ""
+				for _, l := range strings.Split(o.text, "\n") {
+					if strings.HasPrefix(l, "  ") || strings.HasPrefix(l, "UNDECIDED") {
+						first = strings.TrimSpace(l)
+						break
+					}
+				}
+				msg := fmt.Sprintf("SELFTEST-FALSE-ALARM property=%s behaviour-preserving variant %s raises an alarm (exit %d): %s", prop, name, o.code, short(first, 200))
+				fmt.Println(msg)
+				info = append(info, msg)
+			}
+		}
+	}
+	sum := fmt.Sprintf("self-validation: %d/%d seeded mutants of %s reported, %d/%d behaviour-preserving variants silent, %d skipped (%.0fs)", dm, nm, prop, sb, nb, skipped, time.Since(start).Seconds())
+	fmt.Println(sum)
+	return append([]string{sum}, info...)
+}
+
+func crossReference(repo string) []string {
+	var info []string
+	run := func(name string, args ...string) {
+		path, err := exec.LookPath(name)
+		if err != nil {
+			info = append(info, "cross-reference: "+name+" not on PATH")
+			return
+		}
+		cmd := exec.Command(path, args...)
+		cmd.Dir = repo
+		cmd.Env = goEnv(LoadOpts{})
+		done := make(chan struct{})
+		var out []byte
+		go func() { out, _ = cmd.CombinedOutput(); close(done) }()
+		select {
+		case <-done:
+		case <-time.After(240 * time.Second):
+			_ = cmd.Process.Kill()
+			info = append(info, "cross-reference: "+name+" timed out")
+			return
+		}
+		lines := 0
+		for _, l := range strings.Split(string(out), "\n") {
+			if strings.TrimSpace(l) != "" && !strings.Contains(l, "/example/") {
+				lines++
+			}
+		}
+		info = append(info, fmt.Sprintf("cross-reference (information only): %s %s → %d report line(s) on own packages", name, strings.Join(args, " "), lines))
+	}
+	pk := []string{".", "./cli/...", "./cmd/...", "./comments/...", "./config/...", "./pkgload/...", "./method/...", "./namer/...", "./xtype/...", "./enum/...", "./builder/...", "./generator/..."}
+	run("staticcheck", pk...)
+	run("errcheck", pk...)
+	return info
+}
+
+func cmdSelftest(args []string) int {
+	prop := "C09"
+	if len(args) > 0 {
+		prop = args[0]
+	}
+	for _, l := range selfValidate(prop, "/repo", "/verif") {
+		fmt.Println(l)
+	}
+	return 0
+}
